@@ -28,17 +28,18 @@ func (m MergeSelectsOptimizer) Optimize(expr parser.Expr) parser.Expr {
 }
 
 func extractSelectors(selectors matcherHeap, expr parser.Expr) {
-	parser.Inspect(expr, func(node parser.Node, nodes []parser.Node) error {
-		e, ok := node.(*parser.VectorSelector)
+	// Walk the plan with traverse rather than parser.Inspect, which only knows
+	// the node types of the parser and panics on the nodes other optimizers add.
+	traverse(&expr, func(node *parser.Expr) {
+		e, ok := (*node).(*parser.VectorSelector)
 		if !ok {
-			return nil
+			return
 		}
 		for _, l := range e.LabelMatchers {
 			if l.Name == labels.MetricName {
 				selectors.add(l.Value, e.LabelMatchers)
 			}
 		}
-		return nil
 	})
 }
 
